@@ -326,3 +326,10 @@ func IfFloat(c bool, a, b float64) float64 {
 // (symbolically). Natively the clock cannot be stopped; harnesses that freeze it keep their
 // time-dependent inputs far from the decision boundaries.
 func FreezeClock() {}
+
+func IfStr(c bool, a, b string) string {
+	if c {
+		return a
+	}
+	return b
+}
